@@ -33,6 +33,8 @@ pub mod c09;
 pub mod c14;
 pub mod c15;
 pub mod c16;
+pub mod vsock_ref;
+pub mod c17;
 pub mod replay;
 
 pub use engine::chooser::{choose, deviate};
